@@ -34,6 +34,8 @@ class SW:
         self.zero_prm = None        # name of a parameter that is exactly 0 for the first item of the first label dimension
         if grid == "unit":              # the concrete grid 0, 1, 2, ... (ages are numbers: a fixed lifetime's indicator is exactly 0 or 1)
             self.x = [rat(i) + sh for i in range(n_t)]
+        elif grid == "ten-year":        # the concrete grid 0, 10, 20, ...: every interval is ten years long
+            self.x = [rat(10 * i) + sh for i in range(n_t)]
         elif grid == "equidistant":       # x0, x0+h, x0+2h, ...: every interval has the same (symbolic, positive) length
             h = Rat.sym("h", "pos")
             self.x = [Rat.sym("x0") + h * i + sh for i in range(n_t)]
@@ -233,6 +235,9 @@ def make_lifetime(sw: SW, cls_name, over="number", version="A", via="set_prms", 
     lm = sw.it.construct(cls, [], kw)
     if via == "set_prms" and set_params:
         sw.it.call_method(lm, "set_prms", **prms)
+    if via == "set_prms-positional" and set_params:
+        # positional arguments in the documented order of the signature: set_prms(mean), (mean, std), (weibull_shape, weibull_scale)
+        sw.it.call_method(lm, "set_prms", *[prms[nm] for nm in DISTS[cls_name]])
     return lm, prms, at
 
 
